@@ -449,6 +449,33 @@ theorem count_cliques_exact (n : Nat) (adj : Nat → Nat → Bool) (hsym : ∀ a
   rw [cliques_exact n adj hsym k hk _ hp]
   rfl
 
+/-- the Python entry points refuse a non-square matrix (`check_square`; in `get_core_decomposition` since the repair
+    e18a5a2e of /repo) and a clique size below two, before any kernel runs -/
+theorem core_and_cliques_refusals (nRow nCol : Nat) (indptr indices : List Nat) (g : Dag)
+    (edge : Nat → Nat → Bool) (k : Int) :
+    (nRow ≠ nCol → getCoreDecomposition nRow nCol indptr indices = .error .valueError) ∧
+    (nRow ≠ nCol → countCliquesEntry nRow nCol g edge k = .error .valueError) ∧
+    (k < 2 → countCliquesEntry nRow nCol g edge k = .error .valueError) := by
+  refine ⟨fun h => by simp [getCoreDecomposition, h], fun h => ?_, fun h => by simp [countCliquesEntry, h]⟩
+  unfold countCliquesEntry
+  by_cases hk : k < 2
+  · rw [if_pos hk]
+  · rw [if_neg hk]; simp [h]
+
+/-- on a square matrix the entry points are the kernels' wrappers: `get_core_decomposition` is `compute_core`, and
+    `count_cliques` is `countCliques` -/
+theorem entry_points_square (n : Nat) (indptr indices : List Nat) (g : Dag) (edge : Nat → Nat → Bool) (k : Nat)
+    (hk : 2 ≤ k) :
+    getCoreDecomposition n n indptr indices = .ok (computeCore indptr indices) ∧
+    countCliquesEntry n n g edge (k : Int) = countCliques n g edge k := by
+  constructor
+  · simp [getCoreDecomposition]
+  · unfold countCliquesEntry countCliques
+    have h1 : ¬ ((k : Int) < 2) := by omega
+    have h2 : ¬ (k < 2) := by omega
+    rw [if_neg h1, if_neg h2]
+    simp
+
 /-! ### clustering coefficient -/
 
 /-- ★ `clustering_coefficient_eq`: `get_clustering_coefficient` is three times the number of triangles over the
